@@ -412,13 +412,37 @@ func c18Handlers(p *Program) map[string][]*c18Handler {
 				h.Req = c
 			}
 		}
+		keyFallback := FuncKey(ctor)
+		if h.Req == nil {
+			// the handler is a value of a type of this package (closure turned into a
+			// method): its ServeHTTP is the body
+			for _, rt := range c18Returns(ctor) {
+				for _, rv := range rt.Results {
+					v := x.Canon(c18XV{x.Ctxs[0], rv}).V
+					t := v.Type()
+					if pt, ok := t.(*types.Pointer); ok {
+						t = pt.Elem()
+					}
+					n := NamedOf(t)
+					if n == nil || n.Obj().Pkg() != ctor.Pkg.Pkg {
+						continue
+					}
+					if m, declared := p.MethodOf(n, "ServeHTTP"); m != nil && declared && m.Blocks != nil && c18HasReqParam(m) && h.Req == nil {
+						h.X = c18Graph(p, m)
+						x = h.X
+						h.Req = x.Ctxs[0]
+						keyFallback = FuncKey(m)
+					}
+				}
+			}
+		}
 		if h.Req == nil {
 			return // the constructor delegates to another package (gethandler)
 		}
-		h.Key = FuncKey(ctor)
+		h.Key = keyFallback
 		best := -1
 		for _, c := range x.Ctxs {
-			if c18HasReqParam(c.Fn) && c.Fn.Parent() == nil && (best < 0 || c.Depth < best) {
+			if c18HasReqParam(c.Fn) && c.Fn.Parent() == nil && c.Fn.Name() != "ServeHTTP" && (best < 0 || c.Depth < best) {
 				best, h.Key = c.Depth, FuncKey(c.Fn)
 			}
 		}
@@ -1402,9 +1426,23 @@ func (x *c18X) Canon(v c18XV) c18XV {
 			}
 			r := resolveLoad(t)
 			if r == nil {
+				// a field of a local struct that is assigned once (struct literal
+				// hoisted into a variable, parameters bundled in a struct)
+				if fa, ok := t.X.(*ssa.FieldAddr); ok {
+					if fv, ok := x.fieldOf(x.fix(c18XV{v.Ctx, fa.X}), fa.Field, t, 0); ok {
+						v = fv
+						continue
+					}
+				}
 				return x.fix(v)
 			}
 			v = x.at(x.fix(v).Ctx, r)
+		case *ssa.Field:
+			fv, ok := x.fieldOf(x.fix(c18XV{v.Ctx, t.X}), t.Field, nil, 0)
+			if !ok {
+				return x.fix(v)
+			}
+			v = fv
 		case *ssa.Phi:
 			var first ssa.Value
 			same := true
@@ -1461,6 +1499,116 @@ func (x *c18X) Canon(v c18XV) c18XV {
 		}
 	}
 	return x.fix(v)
+}
+
+// c18StructUses collects the uses of local struct al (and of the free variables
+// literals capture it by): field stores, whole-value stores; ok is false when
+// the address is used in any other way than field accesses and whole-value
+// loads/stores.
+func c18StructUses(al *ssa.Alloc) (fieldStores map[int][]*ssa.Store, wholeStores []*ssa.Store, ok bool) {
+	if _, isStruct := al.Type().(*types.Pointer).Elem().Underlying().(*types.Struct); !isStruct {
+		return nil, nil, false
+	}
+	fieldStores = map[int][]*ssa.Store{}
+	ok = true
+	var visit func(addr ssa.Value, depth int)
+	visit = func(addr ssa.Value, depth int) {
+		refs := addr.Referrers()
+		if refs == nil || depth > 4 {
+			return
+		}
+		for _, r := range *refs {
+			switch u := r.(type) {
+			case *ssa.DebugRef:
+			case *ssa.FieldAddr:
+				if fr := u.Referrers(); fr != nil {
+					for _, w := range *fr {
+						switch y := w.(type) {
+						case *ssa.DebugRef:
+						case *ssa.UnOp:
+							if y.Op != token.MUL {
+								ok = false
+							}
+						case *ssa.Store:
+							if y.Addr != ssa.Value(u) {
+								ok = false
+							} else {
+								fieldStores[u.Field] = append(fieldStores[u.Field], y)
+							}
+						default:
+							ok = false
+						}
+					}
+				}
+			case *ssa.UnOp:
+				if u.Op != token.MUL {
+					ok = false
+				}
+			case *ssa.Store:
+				if u.Addr != addr {
+					ok = false
+				} else {
+					wholeStores = append(wholeStores, u)
+				}
+			case *ssa.MakeClosure:
+				fn := u.Fn.(*ssa.Function)
+				for i, bnd := range u.Bindings {
+					if bnd == addr {
+						visit(fn.FreeVars[i], depth+1)
+					}
+				}
+			default:
+				ok = false
+			}
+		}
+	}
+	visit(al, 0)
+	return
+}
+
+// fieldOf returns the value of field f of the struct that base denotes (the
+// address of a local struct, or a struct value), when that field is assigned
+// exactly once on the way: by a field store, or as part of the whole value
+// stored into the local (a parameter of an inlined callee -> the caller's
+// struct). use, when given, is the load being resolved: a store of the same
+// function must come before it.
+func (x *c18X) fieldOf(base c18XV, f int, use ssa.Instruction, depth int) (c18XV, bool) {
+	if depth > 6 || base.V == nil {
+		return c18XV{}, false
+	}
+	switch t := base.V.(type) {
+	case *ssa.Alloc:
+		fs, whole, ok := c18StructUses(t)
+		if !ok {
+			return c18XV{}, false
+		}
+		before := func(st *ssa.Store) bool {
+			return use == nil || use.Parent() != st.Parent() || Precedes(st, use)
+		}
+		switch {
+		case len(fs[f]) == 1 && len(whole) == 0 && fs[f][0].Parent() == t.Parent() && before(fs[f][0]):
+			return x.Canon(c18XV{base.Ctx, fs[f][0].Val}), true
+		case len(fs[f]) == 0 && len(whole) == 1 && whole[0].Parent() == t.Parent() && before(whole[0]):
+			return x.fieldOf(x.fix(c18XV{base.Ctx, whole[0].Val}), f, nil, depth+1)
+		}
+		return c18XV{}, false
+	case *ssa.UnOp:
+		if t.Op == token.MUL {
+			// a whole-struct load of a local
+			if al, ok := t.X.(*ssa.Alloc); ok {
+				return x.fieldOf(c18XV{base.Ctx, al}, f, t, depth+1)
+			}
+		}
+	case *ssa.Parameter:
+		if a, ok := x.argOf(base); ok {
+			return x.fieldOf(x.fix(a), f, nil, depth+1)
+		}
+	case *ssa.FreeVar:
+		if b := bindingOf(t); b != nil {
+			return x.fieldOf(x.at(base.Ctx, b), f, nil, depth+1)
+		}
+	}
+	return c18XV{}, false
 }
 
 // fix normalises the context of a value: nil for values that belong to no
@@ -1638,6 +1786,12 @@ func c18RootAlloc(a ssa.Value) *ssa.Alloc {
 			a = t.X
 		case *ssa.IndexAddr:
 			a = t.X
+		case *ssa.FreeVar:
+			b := bindingOf(t)
+			if b == nil {
+				return nil
+			}
+			a = b
 		default:
 			return nil
 		}
@@ -1742,8 +1896,14 @@ func (x *c18X) Depends(v c18XV, target func(c18XV) bool) bool {
 				return walk(x.at(v.Ctx, b), d+1)
 			}
 			return false
+		case *ssa.Alloc:
+			return cellDeps(v.Ctx, t, d)
 		case *ssa.UnOp:
 			if t.Op == token.MUL {
+				if c := x.Canon(v); c != v {
+					// a load the analysis resolves exactly (single assignment, field of a local struct)
+					return walk(c, d+1)
+				}
 				if cell, ok := varOf(t.X); ok {
 					if cell != t.X && target(x.at(v.Ctx, cell)) {
 						return true
